@@ -72,6 +72,7 @@ RULES = {
     "INSTRLINT": instr.rule_instrlint,
     "INSTRSPEC": instr.rule_instrspec,
     "PREDSPEC": predicates.rule_predspec,
+    "CHECKFORM": predicates.rule_checkform,
     "GUARD": guard.rule_guard,
     "LAYER": layer.rule_layer,
     "VERDICT": layer.rule_verdict,
